@@ -2,12 +2,14 @@ module verifharness
 
 go 1.18
 
-require gorgonia.org/tensor v0.0.0
+require (
+	github.com/chewxy/math32 v1.0.8
+	gorgonia.org/tensor v0.0.0
+)
 
 require (
 	github.com/apache/arrow/go/arrow v0.0.0-20201229220542-30ce2eb5d4dc // indirect
 	github.com/chewxy/hm v1.0.0 // indirect
-	github.com/chewxy/math32 v1.0.8 // indirect
 	github.com/gogo/protobuf v1.3.2 // indirect
 	github.com/golang/protobuf v1.4.3 // indirect
 	github.com/google/flatbuffers v1.12.0 // indirect
